@@ -46,17 +46,26 @@ class C04(Prop):
 
     # ------------------------------------------------------------------ generators
     def cases(self, rng, tier, budget):
+        # regions covered by a known finding are visited a fixed small number of times (the pipeline stops
+        # consuming cases after 50 failures, known or not), everything else scales with the budget
         n_tree = budget * 2 // 3
+        edge_left, by_id_left, disc_edge_left = 12, 12, 8
         for i in range(n_tree):
-            r = rng.random()
-            if r < 0.04:
+            if edge_left and rng.random() < 0.04:
+                edge_left -= 1
                 yield self.edge_tree(rng, tier)
                 continue
-            spec, mv = TF.gen(rng, tier, dashed_by_id=0.15)
+            by_id = 0.0
+            if by_id_left and rng.random() < 0.1:
+                by_id = 1.0
+            spec, mv = TF.gen(rng, tier, dashed_by_id=by_id)
+            if any(v["key"] != v["uid"] for v in spec["variants"]):
+                by_id_left -= 1
             yield {"op": "tree", "args": {"spec": spec, "main_variant": mv}}
         for i in range(budget - n_tree):
             spec = DF.gen(rng, tier)
-            if rng.random() < 0.06:
+            if disc_edge_left and rng.random() < 0.06:
+                disc_edge_left -= 1
                 spec["description"] = rng.choice([" padded ", "trailing ", "\"one-sided", "it's'", "\tx"])
             yield {"op": "disc", "args": {"spec": spec}}
 
